@@ -96,6 +96,11 @@ def trimEnd (l : List PTok) : List PTok := (l.reverse.dropWhile (·.tok.isBlank)
 /-- `trim_whitespace` -/
 def trim (l : List PTok) : List PTok := trimEnd (trimStart l)
 
+/-- `trim_whitespace_and_endlines_start` (fix f08088c): blanks, comments *and line ends* are removed from the start.
+Used where the `(` of a function-like macro invocation is looked for (`split_macro_args`, `find_single_macro`) and
+for the test of the empty argument list of a macro without parameters: an invocation may continue on the next line -/
+def trimStartAll (l : List PTok) : List PTok := l.dropWhile (·.tok.isWhitespace)
+
 /-! ## `Macro::parse` -/
 
 /-- split at the first token of kind `k`: `iter().position(|t| t.0 == k)` -/
@@ -176,7 +181,7 @@ def scanArgs : List PTok → List PTok → List (List PTok) → Nat → Except E
 
 /-- `split_macro_args`: returns (tokens after the closing parenthesis, arguments) -/
 def splitArgs (name : String) (remaining : List PTok) : Except Err (List PTok × List (List PTok)) :=
-  match trimStart remaining with
+  match trimStartAll remaining with
   | ⟨.lparen, _⟩ :: rest => scanArgs rest [] [] 0
   | _ => .error (.macroRequiresArguments name)
 
@@ -202,10 +207,11 @@ inductive Found where
   | none
   deriving DecidableEq, Repr, Inhabited
 
-/-- index of the `(` that follows token `i` after blanks (not line ends), if that is what follows:
-`trim_whitespace_start(&tokens[i + 1..])`, `activate_pos = tokens.len() - trimmed.len()` -/
+/-- index of the `(` that follows token `i` after white space (blanks, comments and -- since fix f08088c -- line ends),
+if that is what follows: `trim_whitespace_and_endlines_start(&tokens[i + 1..])`,
+`activate_pos = tokens.len() - trimmed.len()` -/
 def parenAfter (toks : List PTok) (i : Nat) : Option Nat :=
-  match trimStart (toks.drop (i + 1)) with
+  match trimStartAll (toks.drop (i + 1)) with
   | ⟨.lparen, _⟩ :: tail => some (toks.length - (tail.length + 1))
   | _ => none
 
@@ -344,8 +350,12 @@ def readArgs (m : Macro) (remaining : List PTok) : Except Err (List PTok × List
     | .error e => .error e
     | .ok (rest, args) =>
       if m.numParams = 0 then
+        -- `args.len() == 1 && trim_whitespace_and_endlines_start(args[0]).is_empty()`: the empty argument list may
+        -- still hold a line break (fix f08088c; blanks were already removed by `split_macro_args`)
         match args with
-        | [[]] => .ok (rest, args)
+        | [a] =>
+          if (trimStartAll a).isEmpty then .ok (rest, args)
+          else .error .macroExpectsDifferentNumberOfArguments
         | _ => .error .macroExpectsDifferentNumberOfArguments
       else if args.length ≠ m.numParams then .error .macroExpectsDifferentNumberOfArguments
       else .ok (rest, args)
